@@ -295,6 +295,12 @@ func cmdCheck(args []string) {
 		writeEvidence(filepath.Join(*verif, "evidence", *prop+".json"), ev)
 		os.Exit(0)
 	}
+	// replay files of earlier runs of this property are stale
+	if old, _ := filepath.Glob(filepath.Join(*verif, "replays", *prop+"_*.json")); len(old) > 0 {
+		for _, f := range old {
+			os.Remove(f)
+		}
+	}
 	kfs := loadKnown(filepath.Join(*verif, "known_findings.json"))
 	pp, lines := runProof(eng, *prop, *tier, kfs, filepath.Join(*verif, "replays"))
 	for _, l := range lines {
